@@ -310,6 +310,20 @@ func genEqProbes(seed int64, nEnv, perEnv int) []eqProbe {
 			if k%3 == 0 {
 				b = defs[len(defs)-1-r.Intn((len(defs)+1)/2)].Name // variants are appended last
 			}
+			if k%3 == 1 {
+				// a variant against the very definition it was derived from (its name extends the
+				// original's), in either order
+				v := defs[len(defs)-1-r.Intn((len(defs)+1)/2)].Name
+				for _, d := range defs {
+					if d.Name != v && strings.HasPrefix(v, d.Name) {
+						a, b = d.Name, v
+						if r.Intn(2) == 0 {
+							a, b = b, a
+						}
+						break
+					}
+				}
+			}
 			want := vast.Equal(vast.Named(a, an.Modes[a]), vast.Named(b, an.Modes[b]), an.Trees)
 			var prog, kind string
 			switch r.Intn(3) {
